@@ -540,3 +540,189 @@ pub fn from_tree(
     }
     go(t, &mut vec![], props, wilds, doms)
 }
+
+/// Convert a reference tree (names) into the harness AST (levels / indices). Returns None for
+/// open formulae or unknown names. Wild-card and domain names are looked up in `nm`.
+pub fn from_t(t: &crate::refparser::T, nm: &Names) -> Option<F> {
+    use crate::refparser::T;
+    fn go(t: &T, scope: &mut Vec<String>, nm: &Names) -> Option<F> {
+        Some(match t {
+            T::Const(b) => F::Const(*b),
+            T::Prop(p) => F::Prop(nm.props.iter().position(|x| x == p)? as u8),
+            T::Var(v) => F::Var(scope.iter().rposition(|x| x == v)? as u8),
+            T::Wild(w) => F::Wild(nm.wilds.iter().position(|x| x == w)? as u8),
+            T::Un(o, c) => F::un(*o, go(c, scope, nm)?),
+            T::Bin(o, l, r) => F::bin(*o, go(l, scope, nm)?, go(r, scope, nm)?),
+            T::Hy(Hy::Jump, v, _, c) => F::hy(Hy::Jump, scope.iter().rposition(|x| x == v)? as u8, None, go(c, scope, nm)?),
+            T::Hy(o, v, d, c) => {
+                let d = match d {
+                    None => None,
+                    Some(d) => Some(nm.doms.iter().position(|x| x == d)? as u8),
+                };
+                let lvl = scope.len() as u8;
+                scope.push(v.clone());
+                let c = go(c, scope, nm);
+                scope.pop();
+                F::hy(*o, lvl, d, c?)
+            }
+        })
+    }
+    go(t, &mut vec![], nm)
+}
+
+/// Parse a closed formula written in user syntax with the *reference* parser.
+pub fn f(text: &str, nm: &Names) -> F {
+    let t = crate::refparser::parse_str(text, true).unwrap_or_else(|e| panic!("template {text:?} does not parse: {e}"));
+    from_t(&t, nm).unwrap_or_else(|| panic!("template {text:?} is not closed over the given names"))
+}
+
+/// The collision alphabet of the cache model (DESIGN §3 C04): formulae built to share
+/// sub-formulae up to renaming, at different nesting depths, closed and with one free variable,
+/// inside and outside domain-restricted scopes, under jumps, containing the two shortcut
+/// patterns, and wild-cards inside duplicated sub-trees.
+pub fn collision_alphabet(nm: &Names) -> Vec<F> {
+    [
+        "EF (~ a)",
+        "!{x}: AX ({x} & a)",
+        "!{x} in %d%: EF (~ a)",
+        "(!{x}: AX ({x} & %p%)) & EF (~ a)",
+        "!{x}: AX {x}",
+        "3{x} in %d%: @{x}: AX ({x} & a)",
+        "!{x} in %d%: !{y}: AX ({y} & a)",
+        "!{x} in %e%: AX ({x} & a)",
+        "!{x} in %d%: (@{x}: ((@{x}: %p%) & (@{x}: %p%)))",
+        "(!{x} in %e%: a) & ((!{x}: AX ({x} & %p%)) & (!{x}: AX ({x} & %p%)))",
+        "!{x}: AG EF {x}",
+        "(~ a) & (!{x} in %d%: (~ a))",
+        // --- thorough only below ---
+        "!{y}: EX (AX ({y} & a))",
+        "%p% & EF (~ a)",
+        "V{x} in %d%: @{x}: EF (~ a)",
+        "!{x}: 3{y}: (@{x}: AX ({x} & a)) & (@{y}: AX ({y} & a))",
+        "!{x}: (!{y}: AX {y}) & AX {x}",
+        "3{x}: !{y} in %d%: (!{z}: AX ({z} & a))",
+        "!{x}: (!{y}: AX ({y} & a))",
+        "!{x} in %d%: ((!{y}: AG EF {y}) & {x})",
+        "!{x} in %d%: !{y} in %e%: (AX ({x} & a) | AX ({y} & a))",
+        "EF (~ a) | (3{x} in %e%: EF (~ a))",
+        "!{x}: !{y}: (AX ({x} & a) & AX ({y} & a))",
+        "!{x} in %d%: (!{y}: AX {y}) | AX ({x} & a)",
+    ]
+    .iter()
+    .map(|s| f(s, nm))
+    .collect()
+}
+
+/// Template families `F_tmpl` (DESIGN §2.4): shapes the tool is used for that a node bound
+/// cannot reach. `pool_size` selects how many fillers are used per slot.
+pub fn templates(nm: &Names, ext: bool, pool_size: usize) -> Vec<F> {
+    let mut out: Vec<String> = vec![];
+    // fillers over {x} / {y} (one free variable) and closed ones
+    let fill = |v: &str| -> Vec<String> {
+        vec![
+            format!("AX {{{v}}}"),
+            format!("EF {{{v}}}"),
+            format!("AG EF {{{v}}}"),
+            format!("~ {{{v}}} & a"),
+            format!("EX (~ {{{v}}})"),
+            format!("AF {{{v}}}"),
+            format!("a EU {{{v}}}"),
+            format!("EG (a | {{{v}}})"),
+        ]
+    };
+    let closed = ["a", "~ b", "EF a", "AG (a => EX b)", "!{z}: AX {z}", "!{z}: AG EF {z}"];
+    let fx: Vec<String> = fill("x").into_iter().take(pool_size).collect();
+    let fy: Vec<String> = fill("y").into_iter().take(pool_size).collect();
+    let qs = ["!", "3", "V"];
+    let ops = ["&", "|", "=>"];
+    // Q1{x}: Q2{y}: (@{x}: alpha) op (@{y}: beta) [op gamma]
+    for q1 in qs {
+        for q2 in qs {
+            for a in &fx {
+                for b in &fy {
+                    for op in ops.iter().take(if pool_size > 3 { 3 } else { 1 }) {
+                        out.push(format!("{q1}{{x}}: {q2}{{y}}: (@{{x}}: {a}) {op} (@{{y}}: {b})"));
+                    }
+                    out.push(format!("{q1}{{x}}: {q2}{{y}}: (@{{x}}: ~ {{y}} & {a}) & (@{{y}}: {b}) & ({})", closed[out.len() % closed.len()]));
+                }
+            }
+        }
+    }
+    // duplicate templates: the same two-variable sub-formula with swapped variable roles
+    for q1 in qs {
+        for q2 in qs {
+            for (i, a) in fx.iter().enumerate() {
+                let b = &fy[(i + 1) % fy.len()];
+                let ay = a.replace("{x}", "{y}");
+                let bx = b.replace("{y}", "{x}");
+                out.push(format!("{q1}{{x}}: {q2}{{y}}: (({a}) & ({b})) | (({ay}) & ({bx}))"));
+                out.push(format!("{q1}{{x}}: {q2}{{y}}: (({a}) & EX ({b})) ^ (({ay}) & EX ({bx}))"));
+            }
+        }
+    }
+    // three-variable nests
+    for a in fx.iter().take(3) {
+        out.push(format!("!{{x}}: 3{{y}}: V{{z}}: (@{{z}}: {a}) | (@{{y}}: EX {{z}})"));
+        out.push(format!("3{{x}}: 3{{y}}: !{{z}}: ({a}) & (@{{y}}: AX {{y}}) & ~ {{y}}"));
+        out.push(format!("V{{x}}: !{{y}}: 3{{z}}: @{{x}}: ({a}) => (EF {{z}} & AX {{y}})"));
+    }
+    // the benchmark formulae of the repository
+    for s in [
+        "!{x}: AG EF {x}",
+        "!{x}: AX {x}",
+        "!{x}: AX ~{x}",
+        "!{x}: AX AF {x}",
+        "3{x}: @{x}: (AX {x} & EF ~{x})",
+        "!{x}: 3{y}: (@{x}: ~{y} & AX {x}) & (@{y}: AX {y})",
+        "3{x}: 3{y}: (@{x}: ~{y} & AX {x}) & (@{y}: AX {y}) & EF ({x} & (!{z}: AX {z})) & EF ({y} & (!{z}: AX {z}))",
+        "3{x}: 3{y}: (@{x}: AG EF {x} & ~ EF {y}) & (@{y}: AG EF {y})",
+        "!{x}: (AX (~{x} & AF {x}))",
+        "AF (!{x}: (AX (~{x} & AF {x})))",
+        "AF (!{x}: ((AX (~{x} & AF {x})) & (EF (!{y}: EX ~ AF {y}))))",
+        "!{x}: 3{y}: ((@{x}: ~{y} & AX {x}) & (@{y}: AX {y}) & EF {y})",
+    ] {
+        out.push(s.to_string());
+    }
+    if ext {
+        let body = ["a", "AX {x}", "EF {x}", "%p% & AX {x}", "~ {x} | %p%", "!{y}: AX {y}", "!{y}: AG EF {y}", "EX (!{y} in %e%: AX ({y} & a))"];
+        for q in qs {
+            for (i, b) in body.iter().enumerate() {
+                if i >= pool_size + 2 {
+                    break;
+                }
+                // Q{x} in %d%: ((@{x}: alpha) op beta)
+                out.push(format!("{q}{{x}} in %d%: ((@{{x}}: {b}) & a)"));
+                out.push(format!("{q}{{x}} in %d%: {b}"));
+                out.push(format!("{q}{{x}} in %e%: ({b}) | %p%"));
+                // (Q{x} in %d%: C[phi]) op C'[phi]   (same sub-formula inside and outside the scope)
+                out.push(format!("({q}{{x}} in %d%: EX ({b})) & (!{{x}}: EX ({b}))"));
+                out.push(format!("(!{{x}}: EX ({b})) | ({q}{{x}} in %d%: EX ({b}))"));
+                out.push(format!("({q}{{x}} in %d%: EX ({b})) ^ ({q}{{x}} in %e%: EX ({b}))"));
+                out.push(format!("{q}{{x}} in %d%: {q}{{y}} in %e%: (@{{x}}: {b}) & (@{{y}}: {})", b.replace("{x}", "{y}").replace("{y}: AX {y}", "{z}: AX {z}").replace("{y}: AG EF {y}", "{z}: AG EF {z}").replace("!{y} in", "!{z} in").replace("({y} & a)", "({z} & a)")));
+            }
+        }
+        out.push("!{x} in %d%: (@{x}: ((@{x}: %p%) & (@{x}: %p%)))".into());
+        out.push("(!{x} in %e%: a) & ((!{x}: AX ({x} & %p%)) & (!{x}: AX ({x} & %p%)))".into());
+        out.push("(!{x}: (!{y}: AX ({y} & a))) & (!{x}: !{y} in %d%: (!{z}: AX ({z} & a)))".into());
+        out.push("(~ a) & (!{x} in %d%: (~ a))".into());
+        out.push("!{x} in %d%: ((@{x}: AX {x}) & (!{y}: (a & AX {y})))".into());
+    }
+    let mut fs = vec![];
+    let mut seen = std::collections::HashSet::new();
+    for s in out {
+        let t = match crate::refparser::parse_str(&s, true) {
+            Ok(t) => t,
+            Err(e) => panic!("template {s:?} does not parse: {e}"),
+        };
+        if !t.scope_ok(&mut vec![], &nm.props) {
+            // some generated fillers are ill-scoped (e.g. {z} re-used): skip them deterministically
+            continue;
+        }
+        if let Some(x) = from_t(&t, nm) {
+            if seen.insert(x.clone()) {
+                fs.push(x);
+            }
+        }
+    }
+    fs
+}
